@@ -1,8 +1,280 @@
+// sign.go: canonical sign bytes.  Three kinds of lines:
+//
+//	sortjson <doc>                          => <types.SortJSON(doc) | ERR>
+//	sortperm <doc1> <doc2>                  => <out1> <out2>   doc2 = doc1 with object members permuted at every depth
+//	signbytes <chain> <entropy> <fee> <msg> <memo> => <StdSignBytes> <StdSignBytes again, maps rebuilt in another order>
+//	    fee = fee.MarshalJSON(), msg = msg.GetSignBytes() of the same run (inputs of the sign document)
+//	txsign <type> => <sign bytes of the tx> <sign bytes after proto round trip> <after amino round trip | ->
 package main
 
 import (
+	"encoding/hex"
+	"fmt"
+	"reflect"
+	"sort"
+	"strings"
+
 	"github.com/pokt-network/pocket-core/codec"
+	sdk "github.com/pokt-network/pocket-core/types"
+	authtypes "github.com/pokt-network/pocket-core/x/auth/types"
+	nodestypes "github.com/pokt-network/pocket-core/x/nodes/types"
 	"verifharness/internal/gen"
 )
 
-func runSign(r *gen.R, t *gen.Trace, cdc *codec.Codec, d *dumper, n int) {}
+// ---- random JSON documents (integers only, valid UTF-8) ----
+
+type jnode struct {
+	kind string // null true false num str arr obj
+	num  int64
+	str  string
+	arr  []*jnode
+	keys []string
+	vals []*jnode
+}
+
+var jsonStrs = []string{"", "a", "b", "aa", "ab", "chain_id", "fee", "msg", "é", "<&>", "\"q\"", "back\\slash", "\n\t", " ", "😀", "z\x7f", "0"}
+
+func genJSON(r *gen.R, depth int, dup bool) *jnode {
+	k := r.Intn(10)
+	if depth >= 4 && k >= 6 {
+		k = r.Intn(6)
+	}
+	switch {
+	case k == 0:
+		return &jnode{kind: "null"}
+	case k == 1:
+		return &jnode{kind: []string{"true", "false"}[r.Intn(2)]}
+	case k <= 3:
+		n := int64(r.Intn(2000)) - 1000
+		if r.Chance(1, 5) {
+			n = int64(r.U64() % (1 << 53))
+			if r.Bool() {
+				n = -n
+			}
+		}
+		return &jnode{kind: "num", num: n}
+	case k <= 5:
+		return &jnode{kind: "str", str: r.Pick(jsonStrs)}
+	case k <= 7:
+		n := r.Intn(4)
+		a := &jnode{kind: "arr"}
+		for i := 0; i < n; i++ {
+			a.arr = append(a.arr, genJSON(r, depth+1, dup))
+		}
+		return a
+	default:
+		n := r.Intn(5)
+		o := &jnode{kind: "obj"}
+		seen := map[string]bool{}
+		for i := 0; i < n; i++ {
+			key := r.Pick(jsonStrs)
+			if seen[key] && !dup {
+				continue
+			}
+			seen[key] = true
+			o.keys = append(o.keys, key)
+			o.vals = append(o.vals, genJSON(r, depth+1, dup))
+		}
+		return o
+	}
+}
+
+func jsonQuote(s string) string {
+	var sb strings.Builder
+	sb.WriteByte('"')
+	for _, c := range []byte(s) {
+		switch {
+		case c == '"':
+			sb.WriteString("\\\"")
+		case c == '\\':
+			sb.WriteString("\\\\")
+		case c == '\n':
+			sb.WriteString("\\n")
+		case c == '\t':
+			sb.WriteString("\\t")
+		case c < 0x20:
+			fmt.Fprintf(&sb, "\\u%04x", c)
+		default:
+			sb.WriteByte(c)
+		}
+	}
+	sb.WriteByte('"')
+	return sb.String()
+}
+
+// render with optional whitespace and optional member permutation
+func (j *jnode) text(r *gen.R, ws, perm bool) string {
+	sp := func() string {
+		if ws && r.Chance(1, 4) {
+			return r.Pick([]string{" ", "\n", "\t", "  "})
+		}
+		return ""
+	}
+	switch j.kind {
+	case "null", "true", "false":
+		return j.kind
+	case "num":
+		return fmt.Sprint(j.num)
+	case "str":
+		return jsonQuote(j.str)
+	case "arr":
+		parts := make([]string, len(j.arr))
+		for i, e := range j.arr {
+			parts[i] = sp() + e.text(r, ws, perm) + sp()
+		}
+		return "[" + strings.Join(parts, ",") + "]"
+	default:
+		idx := make([]int, len(j.keys))
+		for i := range idx {
+			idx[i] = i
+		}
+		if perm {
+			for i := len(idx) - 1; i > 0; i-- {
+				k := r.Intn(i + 1)
+				idx[i], idx[k] = idx[k], idx[i]
+			}
+		}
+		parts := make([]string, len(idx))
+		for n, i := range idx {
+			parts[n] = sp() + jsonQuote(j.keys[i]) + sp() + ":" + sp() + j.vals[i].text(r, ws, perm)
+		}
+		return "{" + strings.Join(parts, ",") + "}"
+	}
+}
+
+func hexs(b []byte) string {
+	if len(b) == 0 {
+		return "-"
+	}
+	return hex.EncodeToString(b)
+}
+
+func sortJSONReal(doc string) string {
+	return try(func() string {
+		out, err := sdk.SortJSON([]byte(doc))
+		if err != nil {
+			return "ERR"
+		}
+		return hexs(out)
+	})
+}
+
+// rebuildMaps copies every map reachable from v into a fresh map filled in reverse key order, so
+// that a second computation cannot accidentally share Go's iteration state.
+func rebuildMaps(v reflect.Value) {
+	switch v.Kind() {
+	case reflect.Ptr, reflect.Interface:
+		if !v.IsNil() {
+			rebuildMaps(v.Elem())
+		}
+	case reflect.Struct:
+		for i := 0; i < v.NumField(); i++ {
+			if v.Type().Field(i).PkgPath == "" {
+				rebuildMaps(v.Field(i))
+			}
+		}
+	case reflect.Slice:
+		for i := 0; i < v.Len(); i++ {
+			rebuildMaps(v.Index(i))
+		}
+	case reflect.Map:
+		if v.IsNil() || !v.CanSet() {
+			return
+		}
+		keys := v.MapKeys()
+		sort.Slice(keys, func(i, j int) bool { return keys[i].String() > keys[j].String() })
+		m := reflect.MakeMapWithSize(v.Type(), v.Len())
+		for _, k := range keys {
+			m.SetMapIndex(k, v.MapIndex(k))
+		}
+		v.Set(m)
+	}
+}
+
+func runSign(r *gen.R, t *gen.Trace, cdc *codec.Codec, d *dumper, n int) {
+	chains := []string{"mainnet", "testnet", "", "loc<al>&\"x\"", "é-chain"}
+	for i := 0; i < n; i++ {
+		switch k := r.Intn(10); {
+		case k < 3:
+			doc := genJSON(r, 0, r.Chance(1, 4)).text(r, true, false)
+			t.Line("sortjson", len(doc) > 8, "sortjson %s => %s", hexs([]byte(doc)), sortJSONReal(doc))
+		case k < 5:
+			j := genJSON(r, 0, false)
+			d1, d2 := j.text(r, true, false), j.text(r, true, true)
+			t.Line("sortperm", d1 != d2, "sortperm %s %s => %s %s", hexs([]byte(d1)), hexs([]byte(d2)), sortJSONReal(d1), sortJSONReal(d2))
+		default:
+			mode := modeRand
+			if r.Chance(1, 8) {
+				mode = r.Intn(3)
+			}
+			f := &filler{r: r, mode: mode, msgPick: i % len(msgCtors)}
+			var tx authtypes.StdTx
+			f.fill(reflect.ValueOf(&tx).Elem(), 0)
+			chain := r.Pick(chains)
+			var feeJSON, msgJSON []byte
+			sb := func() string {
+				return try(func() string {
+					b, err := authtypes.StdSignBytes(chain, tx.Entropy, tx.Fee, tx.Msg, tx.Memo)
+					if err != nil {
+						return "ERR"
+					}
+					return hexs(b)
+				})
+			}
+			pre := try(func() string {
+				fj, err := tx.Fee.MarshalJSON()
+				if err != nil {
+					return "ERR"
+				}
+				feeJSON = fj
+				msgJSON = tx.Msg.GetSignBytes()
+				return "ok"
+			})
+			if pre != "ok" {
+				t.Line("signbytes-skip", false, "skip signbytes %s => -", pre)
+				continue
+			}
+			s1 := sb()
+			rebuildMaps(reflect.ValueOf(&tx).Elem())
+			s2 := sb()
+			t.Line("signbytes", mode == modeRand, "signbytes %s %d %s %s %s => %s %s", hexs([]byte(chain)), tx.Entropy, hexs(feeJSON), hexs(msgJSON), hexs([]byte(tx.Memo)), s1, s2)
+
+			// same decoded content -> same sign bytes: after a round trip through either binary codec
+			signOf := func(x authtypes.StdTx) string {
+				return try(func() string {
+					b, err := authtypes.StdSignBytes(chain, x.Entropy, x.Fee, x.Msg, x.Memo)
+					if err != nil {
+						return "ERR"
+					}
+					return hexs(b)
+				})
+			}
+			viaProto := try(func() string {
+				bz, err := cdc.ProtoMarshalBinaryLengthPrefixed(&tx)
+				if err != nil {
+					return "ERR"
+				}
+				var y authtypes.StdTx
+				if err := cdc.ProtoUnmarshalBinaryLengthPrefixed(bz, &y); err != nil {
+					return "ERR"
+				}
+				return signOf(y)
+			})
+			viaAmino := try(func() string {
+				bz, err := cdc.LegacyMarshalBinaryLengthPrefixed(&tx)
+				if err != nil {
+					return "-"
+				}
+				var y authtypes.StdTx
+				if err := cdc.LegacyUnmarshalBinaryLengthPrefixed(bz, &y); err != nil {
+					return "ERR"
+				}
+				return signOf(y)
+			})
+			if viaAmino == "PANIC" && reflect.TypeOf(tx.Msg) == reflect.TypeOf(&nodestypes.MsgStake{}) {
+				viaAmino = "-" // go-amino has no map support (nodes.MsgStake.RewardDelegators)
+			}
+			t.Line("txsign", true, "txsign %s => %s %s %s", reflect.TypeOf(tx.Msg).Elem().String(), s1, viaProto, viaAmino)
+		}
+	}
+}
